@@ -8,6 +8,21 @@ _FIND = [(r'string lcircuit = circuit;\s*FileReader::tolower\(&lcircuit\);\s*str
          (r'lcircuit\.empty\(\)', 'lcircuit_empty', 1),
          (r'const auto it = m_messagesByName\.find\(nameKey\);\s*if \(it != m_messagesByName\.end\(\)\) \{\s*Message\* message = getFirstAvailable\(it->second\);', '{\n      Message* message = env_lookup(nameKey);', 1)]
 
+# MessageMap::findAll: the name map is an array of non-empty buckets (one per key, a flag marks the duplicate keys of multiply stored instances), lower-casing and the circuit/name comparison are opaque per-message verdicts; the level gate, the direction filters, the time
+# window and the availability filter stay as written
+_FINDALL = [(r'string lcircuit = circuit;\s*FileReader::tolower\(&lcircuit\);\s*string lname = name;\s*FileReader::tolower\(&lname\);\s*bool checkCircuit = lcircuit\.length\(\) > 0;',
+             '_Bool checkCircuit = env_given(circuit);', 1),
+            (r'bool checkName = lname\.length\(\) > 0;', '_Bool checkName = env_given(name);', 1),
+            (r'levels != "\*"', "!vstr_eq_lit1(levels, '*')", 1),
+            (r'for \(const auto& it : m_messagesByName\) \{', 'for (size_t ki = 0; ki < g_keys_n; ki++) {\n    const struct bucket* it = &g_keys[ki];', 1),
+            (r'it\.first\[0\] == FIELD_SEPARATOR', 'it->dup', 1),
+            (r'for \(const auto message : it\.second\) \{', 'for (size_t mi = 0; mi < it->n; mi++) {\n      Message* message = it->e[mi];', 1),
+            (r'it\.second\.front\(\)', 'it->e[0]', (0, 4)), (r'it\.second\.(size|empty)\(\)', lambda m: 'it->n' if m.group(1) == 'size' else '(it->n == 0)', (0, 4)),
+            (r'string check = message->getCircuit\(\);\s*FileReader::tolower\(&check\);\s*if \(completeMatch \? \(check != lcircuit\) : \(check\.find\(lcircuit\) == check\.npos\)\) \{',
+             'if (!env_circuit_matches(message, completeMatch)) {', 1),
+            (r'string check = message->getName\(\);\s*FileReader::tolower\(&check\);\s*if \(completeMatch \? \(check != lname\) : \(check\.find\(lname\) == check\.npos\)\) \{',
+             'if (!env_name_matches(message, completeMatch)) {', 1)]
+
 UNIT = dict(
     trusted=['std::string is a bounded value model (stated bound per run)'],
     defines=[('src/lib/ebus/filereader.h', ['VALUE_SEPARATOR'])],
@@ -23,7 +38,13 @@ UNIT = dict(
                     cfg=dict(members={'m_level'}, static_calls={'checkLevel': 'Message_checkLevel'}, text_subs=[(r'checkLevel\(self->m_level, \(\*levels\)\)', 'Message_checkLevel(&self->m_level, levels)')])),
                dict(file=MSG_CPP, name='MessageMap::find', sig='const string& circuit, const string& name, const string& levels', cname='MM_find_by_name', self='struct MessageMap',
                     pre_subs=_FIND, cfg=dict(type_map={'string': 'vstr', 'Message': 'struct Message'}, methods={'hasLevel': 'Message_hasLevel'}, defaults={'Message_hasLevel': (3, ['true'])},
-                             text_subs=[(r'env_circuit_empty\(\(\*circuit\)\)', 'env_circuit_empty(circuit)'), (r'Message_hasLevel\(message, \(\*levels\), true\)', 'Message_hasLevel(message, levels, true)')]))],
+                             text_subs=[(r'env_circuit_empty\(\(\*circuit\)\)', 'env_circuit_empty(circuit)'), (r'Message_hasLevel\(message, \(\*levels\), true\)', 'Message_hasLevel(message, levels, true)')])),
+               dict(file=MSG_CPP, name='MessageMap::findAll', cname='MM_findAll', self='struct MessageMap', ret='void', pre_subs=_FINDALL,
+                    params_c=['const vstr* circuit', 'const vstr* name', 'const vstr* levels', '_Bool completeMatch', '_Bool withRead', '_Bool withWrite', '_Bool withPassive',
+                              '_Bool includeEmptyLevel', '_Bool onlyAvailable', 'time_t since', 'time_t until', '_Bool changedSince', 'struct msgout* messages'],
+                    cfg=dict(type_map={'string': 'vstr', 'Message': 'struct Message'},
+                             methods={'hasLevel': 'env_hasLevel', 'isPassive': 'Msg_isPassive', 'isWrite': 'Msg_isWrite', 'getDstAddress': 'Msg_getDstAddress',
+                                      'getLastChangeTime': 'Msg_getLastChangeTime', 'getLastUpdateTime': 'Msg_getLastUpdateTime', 'isAvailable': 'Msg_isAvailable', 'push_back': 'msgout_push'}))],
     runs=[],
 )
 
@@ -36,4 +57,8 @@ def R(id, entry, enforce=None, replace=(), loops=False, props=('C16', 'C20'), **
 R('checkLevel', 'h_checkLevel', None, unwind=12, defines=['VSTR_CAP=9'], cost=60, timeout=1500,
   bounded='level list up to 9 characters, level up to 9 characters (string model capacity)')
 R('find_by_name', 'h_find_by_name', None, unwind=8, defines=['VSTR_CAP=5'], cost=60, timeout=1500,
+  bounded='level list and level up to 5 characters (string model capacity)')
+R('find_all', 'h_find_all', None, unwind=8, defines=['VSTR_CAP=4', 'KEYS_CAP=3', 'BK_CAP=2'], cost=30, timeout=1500,
+  bounded='three keys with up to two definitions each in the name map; Message::hasLevel is used by its contract (run hasLevel)')
+R('hasLevel', 'h_hasLevel', None, unwind=8, defines=['VSTR_CAP=5'], cost=60, timeout=1500,
   bounded='level list and level up to 5 characters (string model capacity)')
